@@ -433,6 +433,15 @@ var c13ScDefects = []scDefect{
 	{"mapping-bad-index", map[string]string{"mapping": "source.users[abc].user_id"}, nil, false},
 	{"mapping-unclosed-index", map[string]string{"mapping": "source.users[next.user_id"}, nil, false},
 	{"mapping-empty", map[string]string{"mapping": "\"\""}, nil, false},
+	// the documented randomisation functions with hostile arguments (a mapping is evaluated at every shot)
+	{"mapping-randint-equal-bounds", map[string]string{"mapping": "randInt(5, 5)"}, nil, false},
+	{"mapping-randint-extreme-bounds", map[string]string{"mapping": "randInt(-9223372036854775808, 9223372036854775807)"}, nil, false},
+	{"mapping-randint-not-a-number", map[string]string{"mapping": "randInt(a, b)"}, nil, false},
+	{"mapping-randint-three-arguments", map[string]string{"mapping": "randInt(1, 2, 3)"}, nil, false},
+	{"mapping-randstring-negative-length", map[string]string{"mapping": "randString(-5)"}, nil, false},
+	{"mapping-randstring-zero-length", map[string]string{"mapping": "randString(0, ab)"}, nil, false},
+	{"mapping-unknown-function", map[string]string{"mapping": "randFloat(1)"}, nil, false},
+	{"mapping-function-unclosed", map[string]string{"mapping": "randInt(1, 2"}, nil, false},
 }
 
 func c13Scenario(r *R) {
